@@ -87,9 +87,14 @@ pub fn build(prop: &str, seed: u64, hist: u64, rng: &mut Rng, ids: &[String]) ->
         }
         "C01" => {
             fault_cfg = pick_faults(rng, HONEST_LOSSLESS, 1);
-            if sub < 35 {
+            if sub < 30 {
                 profile = "corrupt".into();
                 fault_cfg.insert("corrupt".into(), 400);
+            } else if sub < 50 {
+                // the script that travels with the particle and the bytes handed in as call results are attacker-controlled too
+                profile = "fuzz".into();
+                fault_cfg.insert("script_mut".into(), 350);
+                fault_cfg.insert("raw_results".into(), 200);
             } else {
                 profile = "byz".into();
                 fault_cfg.insert("byz".into(), 500);
@@ -282,6 +287,11 @@ pub fn draw_forge(w: &World, rng: &mut Rng, mid: MsgId, from: usize, byz: Option
             }
         }
         return None;
+    }
+    if let Some(r) = cfg.get("script_mut") {
+        if (rng.u32() % 1000) < *r {
+            return Some(vec![ForgeOp::Script(crate::fuzz::mutate_script(rng, &w.sc.script))]);
+        }
     }
     if let Some(r) = cfg.get("corrupt") {
         if (rng.u32() % 1000) < *r && len > 0 {
